@@ -19,7 +19,9 @@ def cmd_check(a) -> int:
     ctx = Ctx(a.prop, tier, seed)
     try:
         mod = importlib.import_module(f"props.{a.prop}")
+        ctx.defer = os.environ.get("VERIF_SEQUENTIAL_BATCHES") != "1"
         mod.run(ctx)
+        ctx.flush()
     except Exception:
         traceback.print_exc()
         ctx.error("property module crashed: " + traceback.format_exc()[-600:])
